@@ -759,3 +759,101 @@ def r13_empty_image_never_repeated(ck, P, rid='C04-R13'):
                     ck.violation(R, g.name, 'empty source with a repeat (%s == 0)' % dim, '%s reaches a compositing call with a source whose %s is 0 and whose repeat mode is not NONE; this entry point does not pass through %s, so nothing else stops the repeat arithmetic from dividing by zero or padding with a pixel that does not exist' % (g.name, dim, gate.name), '%s:%d' % (g.unit.name, g.line))
     if n < 2:
         raise AnalysisBroken('%s: gate not analysed' % rid)
+
+
+def r14_hull_needs_constant_sign_of_w(ck, P, rid='C04-R14'):
+    """T-GRD: the function that bounds the samples of a request by the hull of its four transformed corners looks, for a transform with a
+    non-trivial bottom row, at the homogeneous coordinate of each corner: a zero refuses the request, and so does a sign different from
+    the previous corner's (w is linear over the rectangle, so equal signs at the corners mean no pole inside)."""
+    R = ck.rule(rid, 'the function that computes the transformed extents of a request from its four corners (it feeds the SAMPLES_COVER_CLIP decision) obtains the homogeneous coordinate of each corner (a call of the non-dividing transform), has no path to a success return when that coordinate is 0, and compares its sign with the sign remembered from the previous corner: the hull of the corners bounds the samples only while w does not change sign across the request', floor=2)
+    F = None
+    for f in P.functions():
+        if f.exported:
+            continue
+        if any(c.callee == 'pixman_transform_point' for c in f.calls()) and any(x.op == 'store' and (f.last_field(f.path(x.a[1])) or '').startswith('box_48_16.') for x in f.insts()):
+            F = f
+    if F is None:
+        raise AnalysisBroken('%s: the function computing transformed extents (box_48_16) was not found' % rid)
+    f = F; ck.saw(f)
+    calls3 = [c for c in f.calls() if c.callee == 'pixman_transform_point_3d']
+    where = '%s: homogeneous coordinate of the corners' % f.name
+    if not calls3:
+        ck.violation(R, f.name, 'sign of w at the corners', '%s bounds the samples by the hull of the transformed corners without ever looking at the homogeneous coordinate of a corner (no call of pixman_transform_point_3d): under a projective transform whose w changes sign inside the request the interior maps outside that hull, yet the source is flagged as covering the clip, taken for opaque if it has no alpha, and OVER becomes SRC' % f.name, '%s:%d' % (f.unit.name, f.line))
+        return
+    ck.ok(R, where, 'obtained with pixman_transform_point_3d')
+    # loads of vector[2] of the vector handed to the non-dividing transform
+    hv = set()
+    for c in calls3:
+        if len(c.a) > 1:
+            hv.add(f.root(f.path(c.a[1])))
+    wloads = [x for x in f.insts() if x.op == 'load' and f.root(f.path(x.a[0])) in hv and [str(q) for q in f.path(x.a[0])[1]][-2:] == ['pixman_vector.vector', '[2]']]
+    if not wloads:
+        ck.violation(R, f.name, 'sign of w at the corners', '%s calls the non-dividing transform but never reads the homogeneous coordinate it produces' % f.name, calls3[0].loc()); return
+    wl = {x.i for x in wloads}
+    # (1) w == 0 refuses
+    tpar = [i for i, (pn, pt) in enumerate(f.params) if 'pixman_transform' in pt]
+    def known(x):
+        if x.i in wl:
+            return 0
+        if x.op == 'call' and x.callee in ('pixman_transform_point_3d', 'pixman_transform_point'):
+            return 1
+        if x.op == 'icmp' and x.d['p'] in ('eq', 'ne') and any(a[0] == 'n' for a in x.a) and any(a[0] == 'a' and a[1] in tpar for a in x.a):
+            return int(x.d['p'] == 'ne')              # there is a transform
+        return None
+    rets = [x for x in f.insts() if x.op == 'ret' and x.a]
+    good_edges = set(); good_blocks = set()
+    for r in rets:
+        v = f.v(r.a[0])
+        if v is not None and v.op == 'phi':
+            for a, bb in zip(v.a, v.d['bb']):
+                if not (a[0] == 'c' and int(a[1]) == 0):
+                    good_edges.add((bb, v.bb.id))
+        elif r.a[0][0] == 'c' and int(r.a[0][1]) != 0:
+            good_blocks.add(r.bb.id)
+    taken = set()
+    hit = common.reach_under(f, known, good_blocks, on_edge=lambda b, s_, pv: taken.add((b, s_)))
+    # the transform must be projective for the test to be required: assume the bottom-row loads non-zero
+    if hit or (good_edges & taken):
+        # retry with the bottom row assumed non-trivial
+        def known2(x):
+            k = known(x)
+            if k is not None:
+                return k
+            if x.op == 'load':
+                st = [str(q) for q in f.path(x.a[0])[1]]
+                if 'pixman_transform.matrix' in st and len(st) >= 3 and st[-2] == '[2]' and st[-1] in ('[0]', '[1]'):
+                    return 1
+            return None
+        taken.clear()
+        hit = common.reach_under(f, known2, good_blocks, on_edge=lambda b, s_, pv: taken.add((b, s_)))
+    if hit or (good_edges & taken):
+        ck.violation(R, f.name, 'w == 0 at a corner', '%s can report extents although the homogeneous coordinate of a corner is 0 (the corner is mapped to infinity)' % f.name, wloads[0].loc())
+    else:
+        ck.ok(R, '%s: w == 0 at a corner refuses the request' % f.name)
+    # (2) the sign is remembered across corners and compared
+    signs = [x for x in f.insts() if x.op == 'icmp' and x.d['p'] in ('slt', 'sgt', 'sle', 'sge') and any(a[0] == 'v' and a[1] in wl for a in x.a) and any(a[0] == 'c' and int(a[1]) == 0 for a in x.a)]
+    remembered = False
+    def flows(s_, through_phi):
+        """values the sign test s_ flows into through casts (and, if asked, phis): ids"""
+        out = {s_.i}; work = [s_]
+        while work:
+            y = work.pop()
+            for u_ in f.users(y):
+                if u_.i in out:
+                    continue
+                if u_.op in ('zext', 'sext', 'trunc', 'select') or (through_phi and u_.op == 'phi'):
+                    out.add(u_.i); work.append(u_)
+        return out
+    direct = set(); carried = set()
+    for s_ in signs:
+        direct |= flows(s_, False)
+        carried |= {i for i in flows(s_, True) if f.by_id[i].op == 'phi'}
+    for c in f.insts():
+        if c.op == 'icmp' and c.d['p'] in ('eq', 'ne') and len(c.a) == 2 and all(a[0] == 'v' for a in c.a):
+            a, b = c.a[0][1], c.a[1][1]
+            if (a in direct and b in carried) or (b in direct and a in carried):
+                remembered = True
+    if remembered:
+        ck.ok(R, '%s: the sign of w is carried from corner to corner and compared' % f.name)
+    else:
+        ck.violation(R, f.name, 'sign of w compared across corners', '%s does not compare the sign of the homogeneous coordinate of a corner with the sign at the previous corner: a request across which w changes sign is bounded by the hull of its corners although its interior maps outside it' % f.name, wloads[0].loc())
